@@ -719,6 +719,19 @@ impl BytecodeInterpreter {
         self.vm.verif_stack_slot(position)
     }
 
+    /// Verification hook: the raw (unsimplified) value bound to a global name.
+    #[cfg(feature = "verif")]
+    pub fn verif_raw_global(&self, name: &str) -> Option<&Value> {
+        self.verif_global_value(name)
+    }
+
+    /// Verification hook: the simplification applied to displayed results.
+    #[cfg(feature = "verif")]
+    pub fn verif_simplify(&self, q: &crate::quantity::Quantity) -> crate::quantity::Quantity {
+        self.vm
+            .simplify_quantity(q, &self.unit_name_to_constant_index)
+    }
+
     pub fn lookup_global(&self, name: &str) -> Option<&Local> {
         self.locals[0]
             .iter()
